@@ -62,6 +62,7 @@ Sigs(e) ==
         \* documented defaults: 1920x1080, 90 kHz media timescale, 2-second fragments; Opus is always 48 kHz
         (IF e.frag_timescale # 90000 \/ e.frag_duration_ms # 2000 \/ e.frag_w # 1920 \/ e.frag_h # 1080 THEN {VSig("Defaults", "FragmentConfig", "value")} ELSE {})
         \cup (IF e.opus_rate # 48000 THEN {VSig("Defaults", "OPUS_SAMPLE_RATE", "value")} ELSE {})
+        \cup (IF e.frag_sps = << >> \/ e.frag_sps[1] % 32 # 7 \/ e.frag_pps = << >> \/ e.frag_pps[1] % 32 # 8 THEN {VSig("Defaults", "FragmentConfig", "parameter-set-nal-type")} ELSE {})
     ELSE IF e.f = "constants" THEN
         \* ITU-T H.264 Table 7-1, H.265 Table 7-1, AV1 section 6.2.2; the default parameter sets are NAL units of the right type
         (IF e.h264 # << 1, 5, 7, 8 >> THEN {VSig("Constants", "h264::nal_type", "value")} ELSE {})
